@@ -3686,7 +3686,7 @@ static Token *function(Token *tok, Type *basety, VarAttr *attr) {
   Type *rty = ty->return_ty;
   if ((rty->kind == TY_STRUCT || rty->kind == TY_UNION) && rty->size < 0)
     error_tok(ty->name, "function returns an incomplete type");
-  if ((rty->kind == TY_STRUCT || rty->kind == TY_UNION) && rty->size > 16)
+  if ((rty->kind == TY_STRUCT || rty->kind == TY_UNION) && is_returned_in_memory(rty))
     new_lvar("", pointer_to(rty));
 
   fn->params = locals;
